@@ -937,11 +937,14 @@ class Ev:
     def run(self, body):
         """execute statements; returns True when a return/raise terminated."""
         for s in body:
-            if self.stmt(s):
-                return True
+            r = self.stmt(s)
+            if r:
+                return r            # True, or 'continue' inside a loop body
         return False
 
     def stmt(self, s):
+        if isinstance(s, ast.Continue):
+            return 'continue'
         if isinstance(s, ast.Assign):
             v = self.ev(s.value)
             for t in s.targets:
@@ -983,7 +986,10 @@ class Ev:
                 raise Inconclusive('loop over ' + unparse(s.iter))
             for it in items:
                 self.assign(s.target, it)
-                if self.run(s.body):
+                r = self.run(s.body)
+                if r == 'continue':
+                    continue
+                if r:
                     return True
             return False
         if isinstance(s, (ast.Pass, ast.Import, ast.ImportFrom)):
